@@ -61,6 +61,14 @@ pub fn sets(tier: Tier) -> Vec<Set> {
                 sets.push(Set { l, name: "add-seqs 11 over 3 titles (cap)".into(), menu: three.clone(), lo: 11, hi: 11, queries: capq.clone(), sizes: vec![1], block: 400 });
             }
         }
+        // (iv) long texts: hundreds of shared grams per record
+        if l == L::None || l == L::En || tier == Tier::Thorough {
+            let t300 = long_text(300, 50);
+            let words: Vec<&str> = t300.split(' ').collect();
+            let lmenu = vec![t300.clone(), words[..150].join(" "), long_text(60, 100)];
+            let lq = vec![t300.clone(), words[100..260].join(" "), long_text(60, 100), words[..3].join(" ")];
+            sets.push(Set { l, name: "add-seqs<=2 over 3 long texts (60 / 150 / 300 words)".into(), menu: lmenu, lo: 1, hi: 2, queries: lq, sizes: vec![1, 3], block: 1 });
+        }
         // (iii) word-level menu
         let lex = lex_strings(l);
         let mut wmenu: Vec<String> = lex.iter().take(8).cloned().collect();
